@@ -6,6 +6,7 @@ package main
 
 import (
 	"encoding/json"
+	"errors"
 	"flag"
 	"fmt"
 	"net"
@@ -85,15 +86,76 @@ func abstract(s string) absStr {
 	return absStr{Valid: true, S: out}
 }
 
-type provider struct{ txt []string }
+type provider struct {
+	txt   []string
+	fail  bool     // refuse the next announcements
+	calls []string // how the Announce calls ended
+	pub   bool     // something is published
+}
 
 func (p *provider) Start(bool, api.MdnsResolveCB) bool { return true }
 func (p *provider) Shutdown()                          {}
 func (p *provider) Announce(_ string, _ int, txt []string) error {
+	if p.fail {
+		p.calls = append(p.calls, "fail")
+		return errors.New("provider refuses the announcement")
+	}
+	p.calls = append(p.calls, "ok")
 	p.txt = append([]string{}, txt...)
+	p.pub = true
 	return nil
 }
-func (p *provider) Unannounce() {}
+func (p *provider) Unannounce() { p.pub = false }
+
+// ---------------------------------------------------------------- operation sequences (spec/MdnsAnnounce.tla)
+
+type annOp struct {
+	Op string `json:"op"`
+	Ok bool   `json:"ok"`
+	B  bool   `json:"b"`
+}
+type annStep struct {
+	Op    annOp    `json:"op"`
+	Pub   string   `json:"pub"`   // what a ship-go browser reads from the current publication: none / T / F (Register)
+	Calls []string `json:"calls"` // provider Announce calls of this step
+}
+type annObs struct {
+	ID    int       `json:"id"`
+	Steps []annStep `json:"steps"`
+}
+
+func runSeq(id int, ops []annOp) annObs {
+	m := mdns.NewMDNS(ski1, "Brand", "Model", "Type", "Serial", []api.DeviceCategoryType{2}, "Identifier", "service", 4711, nil, mdns.MdnsProviderSelectionAll)
+	p := &provider{fail: true} // Start announces by itself: not part of the sequence
+	_ = m.VerifStartWithProvider(nil, p)
+	p.fail, p.calls = false, nil
+	o := annObs{ID: id, Steps: []annStep{}}
+	for _, op := range ops {
+		p.calls = []string{}
+		p.fail = !op.Ok
+		switch op.Op {
+		case "Announce":
+			_ = m.AnnounceMdnsEntry()
+		case "Unannounce":
+			m.UnannounceMdnsEntry()
+		case "SetAuto":
+			m.SetAutoAccept(op.B)
+		}
+		st := annStep{Op: op, Pub: "none", Calls: p.calls}
+		if p.pub {
+			// read the publication back with the library's own parser and entry processing
+			m2 := mdns.NewMDNS(ski2, "b", "m", "t", "s", nil, "other", "other", 4712, nil, mdns.MdnsProviderSelectionAll)
+			_ = m2.VerifStartWithProvider(nil, &provider{})
+			m2.VerifResolveCB()(mdns.VerifParseTxt(p.txt), "service", "host.local.", []net.IP{net.ParseIP("192.168.1.10")}, 4711, false)
+			st.Pub = "unreadable"
+			for _, e := range m2.VerifEntries() {
+				st.Pub = vh.B(e.Register)
+			}
+		}
+		o.Steps = append(o.Steps, st)
+	}
+	return o
+}
 
 var qrKeys = map[string]bool{"SKI": true, "ID": true, "BRAND": true, "TYPE": true, "MODEL": true, "SERIAL": true, "CAT": true}
 
@@ -194,8 +256,35 @@ func eval(r rowT) obsT {
 
 func main() {
 	in := flag.String("rows", "", "ndjson rows")
+	seqs := flag.String("seqs", "", "ndjson operation sequences (MdnsAnnounce)")
 	obs := flag.String("obs", "", "ndjson observations")
 	flag.Parse()
+	if *seqs != "" {
+		out, err := vh.NewWriter(*obs)
+		if err != nil {
+			fmt.Fprintln(os.Stderr, err)
+			os.Exit(2)
+		}
+		n := 0
+		if err := vh.ReadLines(*seqs, func(b []byte) error {
+			var t struct {
+				ID  int     `json:"id"`
+				Ops []annOp `json:"ops"`
+			}
+			if err := json.Unmarshal(b, &t); err != nil {
+				return err
+			}
+			out.Write(runSeq(t.ID, t.Ops))
+			n++
+			return nil
+		}); err != nil || n == 0 {
+			fmt.Fprintln(os.Stderr, "no sequences:", err)
+			os.Exit(2)
+		}
+		out.Close()
+		fmt.Printf("mdnstext: %d operation sequences\n", n)
+		return
+	}
 	var rows []rowT
 	if err := vh.ReadLines(*in, func(b []byte) error {
 		var r rowT
